@@ -1481,7 +1481,7 @@ func (enc *VP8Encoder) initPassStats() *passStats {
 	// Clamp quality to [qmin, qmax] range (matching C behavior).
 	qmin := float64(enc.config.QMin)
 	qmax := float64(enc.config.QMax)
-	if qmax <= 0 {
+	if qmax < 0 {
 		qmax = 100.0
 	}
 	q := float64(enc.config.Quality)
